@@ -319,7 +319,7 @@ func spellSites(toks []stok, small bool) []site {
 			}
 		}
 		// zero-width boundary before this token (inside delimiters, previous token not whitespace)
-		if i > 0 && t.kind != kWS && toks[i-1].kind != kWS && toks[i-1].in == t.in &&
+		if i > 0 && t.kind != kWS && t.kind != kOpen && toks[i-1].kind != kClose && toks[i-1].kind != kWS && toks[i-1].in == t.in &&
 			t.kind != kStr && t.kind != kQClose && toks[i-1].kind != kQOpen && toks[i-1].kind != kStr {
 			a := []string{" ", "\n"}
 			if small {
